@@ -1,6 +1,7 @@
 package main
 
 import (
+	"bytes"
 	"fmt"
 	"strings"
 	"unicode"
@@ -45,16 +46,83 @@ func isWsDeletion(want, got string) bool {
 	return j == len(got)
 }
 
-// twOracle: C13 on operation lists — trimming removes whitespace only (for valid UTF-8 writes).
-func twOracle(r *Run, caseLine string, plain, out []byte) {
-	if !utf8.Valid(plain) {
-		return // DESIGN C13 scope note 3: the law is about characters
+// twOracle: C13 on operation lists.
+//   - no-trim-identity (all byte strings): without TrimLeft/TrimRight the output is the
+//     concatenation of the writes (tw_no_trim_identity);
+//   - when every write is valid UTF-8 (ValidOps; DESIGN C13 scope note 3: the law is about
+//     characters, and is false on raw bytes, tw_erasure_fails_on_invalid_utf8): trimming removes
+//     whitespace only (tw_trim_only_ws) and the output is a whitespace-deletion of the untrimmed
+//     output (tw_trim_subseq), still valid UTF-8 and never longer (tw_trim_valid_sublist).
+func twOracle(r *Run, caseLine string, plain, out []byte, valid bool, trims int) {
+	if trims == 0 && !bytes.Equal(plain, out) {
+		r.Violate("C13", "no-trim-identity", caseLine, fmt.Sprintf("plain=%q out=%q", plain, out))
+		return
 	}
+	if !valid {
+		r.Count("oracle=identity-only(invalid-utf8-write)")
+		return
+	}
+	r.Count("oracle=erasure")
 	if stripSpace(plain) != stripSpace(out) {
 		r.Violate("C13", "trim-removes-only-whitespace", caseLine, fmt.Sprintf("plain=%q out=%q", plain, out))
 		return
 	}
-	if len(out) > len(plain) || !isWsDeletion(string(plain), string(out)) {
+	if len(out) > len(plain) || !utf8.Valid(out) || !isWsDeletion(string(plain), string(out)) {
 		r.Violate("C13", "trim-output-is-whitespace-deletion", caseLine, fmt.Sprintf("plain=%q out=%q", plain, out))
+	}
+}
+
+func hasInk(b []byte) bool { return len(bytes.TrimFunc(b, unicode.IsSpace)) > 0 }
+
+// twAdjacentOracle: "exactly the adjacent whitespace" on operation lists with valid UTF-8 writes.
+// Every clause is one of the adjacency theorems of Proofs/C13.lean read as a metamorphic relation
+// on the REAL trimWriter: the case and its rewritten form (the trim operation replaced by a write
+// of the text stripped by the harness with bytes.TrimLeftFunc/TrimRightFunc) must write the same
+// bytes. The pending-TrimRight flag before position i is tracked here (set by R, consumed by any
+// write) and does not come from the model.
+func twAdjacentOracle(r *Run, caseLine string, ops []twOp, out []byte) {
+	check := func(clause string, i, n int, repl ...twOp) {
+		alt := append(append(append([]twOp(nil), ops[:i]...), repl...), ops[i+n:]...)
+		got := bytes.Join(runRealTW(alt), nil)
+		r.Count("adjacent=" + clause)
+		if !bytes.Equal(got, out) {
+			r.Violate("C13", clause, caseLine, fmt.Sprintf("out=%q but %s => %q", out, showTwOps(alt), got))
+		}
+	}
+	w := func(b []byte) twOp { return twOp{kind: 'w', b: b} }
+	flag := false
+	for i := 0; i < len(ops); i++ {
+		if i+1 < len(ops) {
+			a, b := ops[i], ops[i+1]
+			switch {
+			case a.kind == 'w' && b.kind == 'L' && (hasInk(a.b) || !flag):
+				// trimLeft_adjacent, trimLeft_adjacent_noflag
+				check("trimLeft-adjacent", i, 2, w(bytes.TrimRightFunc(a.b, unicode.IsSpace)))
+			case a.kind == 'w' && b.kind == 'L':
+				// trimLeft_adjacent_ws: blank text between a pending TrimRight and a TrimLeft
+				check("trimLeft-adjacent-blank", i, 2, twOp{kind: 'L'}, w(nil))
+			case a.kind == 'R' && b.kind == 'w' && (hasInk(b.b) || flag):
+				// trimRight_adjacent, trimRight_adjacent_flag
+				check("trimRight-adjacent", i, 2, w(bytes.TrimLeftFunc(b.b, unicode.IsSpace)))
+			case a.kind == 'R' && b.kind == 'w' && len(b.b) > 0:
+				// trimRight_adjacent_ws
+				check("trimRight-adjacent-blank", i, 2, twOp{kind: 'R'}, w(nil))
+			case a.kind == 'R' && b.kind == 'w':
+				// trimRight_empty_write (flag is clear here)
+				check("trimRight-empty-write", i, 2)
+			case a.kind == 'R' && b.kind == 'L':
+				// trimRight_persists_trimLeft
+				check("trimRight-persists-trimLeft", i, 2, twOp{kind: 'L'}, twOp{kind: 'R'})
+			case a.kind == 'R' && b.kind == 'F':
+				// trimRight_persists_flush
+				check("trimRight-persists-flush", i, 2, twOp{kind: 'F'}, twOp{kind: 'R'})
+			}
+		}
+		switch ops[i].kind {
+		case 'R':
+			flag = true
+		case 'w':
+			flag = false
+		}
 	}
 }
